@@ -29,7 +29,7 @@ def linOf : Pc → Option WOp
   | .pE1 k n => some (match k with | .push false _ _ => .back n | _ => .front n)
   | .pF3 _ n => some (.front n)
   | .pB2 _ n _ => some (.back n)
-  | .eUnl c _ _ _ => some (.erase c)
+  | .eUnl c _ _ _ _ => some (.erase c)
   | _ => none
 
 def whUpd (s : St) (w : Wh) (t : Tid) (e : Ev) : Wh :=
@@ -85,15 +85,15 @@ theorem reachableW_of {s : St} (h : Reachable s) : ∃ w, ReachableW (s, w) := b
 /-- inside a critical section of the write mutex: `some false` before the mutation, `some true` after it -/
 def phase : Pc → Option Bool
   | .pAlloc _ | .pCons .. | .pThrown _ | .pLoad .. | .pE1 .. | .pF1 .. | .pF2 .. | .pF3 .. | .pB1 .. | .pB2 ..
-  | .eOrig .. | .eDel .. | .eMark .. | .eBack .. | .eNext .. | .eUnl .. => some false
-  | .pE2 .. | .pB3 .. | .pUnlock _ | .eFix .. | .eAlloc .. | .eCons .. | .eZh .. | .eUnlock _ => some true
+  | .eOrig .. | .eDel .. | .eAlloc .. | .eCons .. | .eMark .. | .eBack .. | .eNext .. | .eUnl .. => some false
+  | .pE2 .. | .pB3 .. | .pUnlock _ | .eFix .. | .eZh .. | .eUnlock _ => some true
   | .pushStore (.erase _) .. | .pushCas (.erase _) .. => some true
   | _ => none
 
 /-- a `push` after its linking store, an `erase` after its unlinking store and before it unlocks -/
 def pushDone : Pc → Bool
   | .pE2 .. | .pB3 .. | .pUnlock _ => true
-  | .eFix .. | .eAlloc .. | .eCons .. | .eZh .. | .pushStore (.erase _) .. | .pushCas (.erase _) .. => true
+  | .eFix .. | .eZh .. | .pushStore (.erase _) .. | .pushCas (.erase _) .. => true
   | _ => false
 
 theorem pushDone_holds {p : Pc} (h : pushDone p = true) : holdsW p = true := by
@@ -269,10 +269,10 @@ theorem invW_step {s s' : St} {w : Wh} {t : Tid} {e : Ev} (hx : InvX s) (h : Inv
   case pB2 k n h0 o hpc ho =>
     conv => arg 2; simp only [whUpd, linOf, hpc]
     exact invW_lin (t := t) ha h _ (by simp [hpc, phase]) rfl rfl (fun u hut => by simp [hut]) (by simp [phase])
-  case eUnlPrev c orig pp x o hpc ho =>
+  case eUnlPrev c orig pp x z o hpc ho =>
     conv => arg 2; simp only [whUpd, linOf, hpc]
     exact invW_lin (t := t) ha h _ (by simp [hpc, phase]) rfl rfl (fun u hut => by simp [hut]) (by simp [phase])
-  case eUnlHead c orig x o hpc ho =>
+  case eUnlHead c orig x z o hpc ho =>
     conv => arg 2; simp only [whUpd, linOf, hpc]
     exact invW_lin (t := t) ha h _ (by simp [hpc, phase]) rfl rfl (fun u hut => by simp [hut]) (by simp [phase])
 
